@@ -343,6 +343,59 @@ func RunTransfer(ctx context.Context, cfg XferCfg, lp *ListenerPool, srcRoot, ou
 			} else if cfg.RecvDeco != nil {
 				idle = cfg.RecvDeco.IdleFor()
 			}
+			completedLate := false
+			if idle >= wd/2 {
+				// confirmation windows: a deadlock stays; a transport that
+				// backed off on an overloaded machine moves again. Only a
+				// transfer of which a side neither returned nor moved a byte
+				// for a further W/2 is reported as hung; one that keeps moving
+				// for three more windows without finishing is inconclusive.
+				deco := cfg.SendDeco
+				if deco == nil {
+					deco = cfg.RecvDeco
+				}
+				for round := 1; ; round++ {
+					before := int64(-1)
+					if deco != nil {
+						before = deco.TotalBytes()
+					}
+					moved := false
+					confirm := time.NewTimer(wd / 2)
+				wait:
+					for sd != nil || rd != nil {
+						select {
+						case <-sd:
+							sd = nil
+							moved = true
+						case <-rd:
+							rd = nil
+							moved = true
+						case <-confirm.C:
+							break wait
+						}
+					}
+					confirm.Stop()
+					if deco != nil && deco.TotalBytes() != before {
+						moved = true
+					}
+					if sd == nil && rd == nil {
+						completedLate = true
+						break
+					}
+					if !moved {
+						break // confirmed: nothing happened for another W/2
+					}
+					if round == 3 {
+						idle = 0 // still moving, still not done: no verdict
+						break
+					}
+				}
+			}
+			if completedLate {
+				mu.Lock()
+				defer mu.Unlock()
+				return res
+			}
 			mu.Lock()
 			if idle >= wd/2 {
 				res.Hung = true
@@ -350,7 +403,7 @@ func RunTransfer(ctx context.Context, cfg XferCfg, lp *ListenerPool, srcRoot, ou
 				res.RecvStuck = !res.RecvReturned
 				res.HangDump = GoroutineDump(label)
 			} else {
-				res.Inconclusive = "watchdog fired while bytes were still moving"
+				res.Inconclusive = "watchdog fired while bytes were still moving (or the transfer moved again during the confirmation window)"
 			}
 			mu.Unlock()
 			// unblock everything so the goroutines end
